@@ -2,121 +2,78 @@
    functions; the stabilised formulations (softplus, sigmoid, logsumexp and the composites
    log_softmax / softmax / softmax_cross_entropy) equal their mathematical definitions and
    cannot overflow for finite inputs.  Statements only; proofs in Scalar/{FwSpec,StableElem,
-   Stable,StableBounds,Pown}.v.  All theorems speak about Gen/ScalarGen.v (regenerated from
-   the C++ on every check).  Float32 rounding is outside these theorems: the "within a few ulps"
-   part of C02 is measured by the correspondence run of engines/scalar.py. *)
+   Stable,StableBounds,Pown}.v (one lemma per fact there; grouped here because every
+   Print Assumptions over the Reals costs more than a second).  All theorems speak about
+   Gen/ScalarGen.v, regenerated from the C++ on every check.  Float32 rounding is outside these
+   theorems: the "within a few ulps" part of C02 is measured by the run of engines/scalar.py. *)
 From Coq Require Import Reals ZArith List Lra.
 From PV Require Import Scalar.ScalarBase Gen.ScalarGen Scalar.StableElem Scalar.Stable
                        Scalar.StableBounds Scalar.FwSpec Scalar.Pown.
 Import ListNotations.
 Local Open Scope R_scope.
 
-(* ---- elementwise forward functions as documented ---- *)
-Theorem C02s_fw_unary_spec x :
-  fw_negate x = - x /\ fw_abs x = Rabs x /\ fw_sqrt x = sqrt x /\ fw_exp x = exp x /\
-  fw_log x = ln x /\ fw_tanh x = tanh x /\ fw_sin x = sin x /\ fw_cos x = cos x /\
-  fw_tan x = tan x /\ fw_sigmoid x = 1 / (1 + exp (- x)) /\ fw_softplus x = ln (1 + exp x).
-Proof. exact (fw_unary_spec x). Qed.
-Print Assumptions C02s_fw_unary_spec.
+(* ---- elementwise forward functions as documented (basic_functions.h) ---- *)
+Theorem C02s_fw_elementwise_spec x k a b :
+  (fw_negate x = - x /\ fw_abs x = Rabs x /\ fw_sqrt x = sqrt x /\ fw_exp x = exp x /\
+   fw_log x = ln x /\ fw_tanh x = tanh x /\ fw_sin x = sin x /\ fw_cos x = cos x /\
+   fw_tan x = tan x /\ fw_sigmoid x = 1 / (1 + exp (- x)) /\ fw_softplus x = ln (1 + exp x)) /\
+  (fw_add_const x k = x + k /\ fw_subtract_const_r x k = x - k /\ fw_subtract_const_l x k = k - x /\
+   fw_multiply_const x k = x * k /\ fw_divide_const_r x k = x / k /\ fw_divide_const_l x k = k / x /\
+   fw_pow_const_r x k = Rpower x k /\ fw_pow_const_l x k = Rpower k x) /\
+  (fw_add_scalar x k = fw_add_const x k /\ fw_subtract_scalar_r x k = fw_subtract_const_r x k /\
+   fw_subtract_scalar_l x k = fw_subtract_const_l x k /\ fw_multiply_scalar x k = fw_multiply_const x k /\
+   fw_divide_scalar_r x k = fw_divide_const_r x k /\ fw_divide_scalar_l x k = fw_divide_const_l x k /\
+   fw_pow_scalar_r x k = fw_pow_const_r x k /\ fw_pow_scalar_l x k = fw_pow_const_l x k) /\
+  (fw_add a b = a + b /\ fw_subtract a b = a - b /\ fw_multiply a b = a * b /\
+   fw_divide a b = a / b /\ fw_pow a b = Rpower a b).
+Proof. exact (fw_elementwise_spec_all x k a b). Qed.
+Print Assumptions C02s_fw_elementwise_spec.
 
-Theorem C02s_fw_const_spec x k :
-  fw_add_const x k = x + k /\ fw_subtract_const_r x k = x - k /\ fw_subtract_const_l x k = k - x /\
-  fw_multiply_const x k = x * k /\ fw_divide_const_r x k = x / k /\ fw_divide_const_l x k = k / x /\
-  fw_pow_const_r x k = Rpower x k /\ fw_pow_const_l x k = Rpower k x.
-Proof. exact (fw_const_spec x k). Qed.
-Print Assumptions C02s_fw_const_spec.
+(* PReLU / ELU as documented (x for x >= 0, else a x resp. a (e^x - 1)); relu = max(x,0), lrelu = max(x, .01x) *)
+Theorem C02s_fw_activation_spec x k :
+  fw_prelu x k = (if Rge_dec x 0 then x else k * x) /\
+  fw_elu x k = (if Rge_dec x 0 then x else k * (exp x - 1)) /\
+  fw_prelu x 0 = Rmax x 0 /\ fw_prelu x (1 / 100) = Rmax x (1 / 100 * x).
+Proof. exact (fw_activation_spec_all x k). Qed.
+Print Assumptions C02s_fw_activation_spec.
 
-Theorem C02s_fw_prelu_spec x k : fw_prelu x k = if Rge_dec x 0 then x else k * x.
-Proof. exact (fw_prelu_spec x k). Qed.
-Print Assumptions C02s_fw_prelu_spec.
-
-Theorem C02s_fw_elu_spec x k : fw_elu x k = if Rge_dec x 0 then x else k * (exp x - 1).
-Proof. exact (fw_elu_spec x k). Qed.
-Print Assumptions C02s_fw_elu_spec.
-
-Theorem C02s_fw_relu_spec x : fw_prelu x 0 = Rmax x 0.
-Proof. exact (fw_relu_spec x). Qed.
-Print Assumptions C02s_fw_relu_spec.
-
-Theorem C02s_fw_lrelu_spec x : fw_prelu x (1 / 100) = Rmax x (1 / 100 * x).
-Proof. exact (fw_lrelu_spec x). Qed.
-Print Assumptions C02s_fw_lrelu_spec.
-
-Theorem C02s_fw_scalar_spec x k :
-  fw_add_scalar x k = fw_add_const x k /\ fw_subtract_scalar_r x k = fw_subtract_const_r x k /\
-  fw_subtract_scalar_l x k = fw_subtract_const_l x k /\ fw_multiply_scalar x k = fw_multiply_const x k /\
-  fw_divide_scalar_r x k = fw_divide_const_r x k /\ fw_divide_scalar_l x k = fw_divide_const_l x k /\
-  fw_pow_scalar_r x k = fw_pow_const_r x k /\ fw_pow_scalar_l x k = fw_pow_const_l x k.
-Proof. exact (fw_scalar_spec x k). Qed.
-Print Assumptions C02s_fw_scalar_spec.
-
-Theorem C02s_fw_binary_spec a b :
-  fw_add a b = a + b /\ fw_subtract a b = a - b /\ fw_multiply a b = a * b /\
-  fw_divide a b = a / b /\ fw_pow a b = Rpower a b.
-Proof. exact (fw_binary_spec a b). Qed.
-Print Assumptions C02s_fw_binary_spec.
-
-Theorem C02s_fw_pown_spec x k : Pown.int32 k -> fw_pown x k = powerRZ x k.
-Proof. exact (Pown.fw_pown_powerRZ x k). Qed.
+Theorem C02s_fw_pown_spec x k : int32 k -> fw_pown x k = powerRZ x k.
+Proof. exact (fw_pown_powerRZ x k). Qed.
 Print Assumptions C02s_fw_pown_spec.
 
-(* ---- tables: nothing untranslated, nothing uncovered, fw assigns / bw accumulates ---- *)
-Theorem C02s_gen_names_covered : names_covered_ok = true /\ gen_translation_errors = 0%nat.
-Proof. exact gen_names_covered. Qed.
-Print Assumptions C02s_gen_names_covered.
-
-Theorem C02s_gen_updates_ok : updates_ok = true.
-Proof. exact gen_updates_ok. Qed.
-Print Assumptions C02s_gen_updates_ok.
+(* tables: every kernel found is covered and vice versa, nothing untranslated, fw assigns / bw accumulates *)
+Theorem C02s_gen_tables_ok : names_covered_ok = true /\ gen_translation_errors = 0%nat /\ updates_ok = true.
+Proof. exact gen_tables_ok. Qed.
+Print Assumptions C02s_gen_tables_ok.
 
 (* ---- stable formulations equal the mathematical definitions ---- *)
-Theorem C02s_softplus_stable_eq x : fw_softplus x = ln (1 + exp x).
-Proof. exact (softplus_stable_eq x). Qed.
-Print Assumptions C02s_softplus_stable_eq.
+Theorem C02s_stable_elem x :
+  fw_softplus x = ln (1 + exp x) /\ fw_sigmoid x = 1 / (1 + exp (- x)) /\ 0 < fw_sigmoid x < 1.
+Proof. exact (stable_elem_all x). Qed.
+Print Assumptions C02s_stable_elem.
 
-Theorem C02s_sigmoid_tanh_eq x : fw_sigmoid x = 1 / (1 + exp (- x)).
-Proof. exact (sigmoid_tanh_eq x). Qed.
-Print Assumptions C02s_sigmoid_tanh_eq.
-
-Theorem C02s_sigmoid_range x : 0 < fw_sigmoid x < 1.
-Proof. exact (sigmoid_range x). Qed.
-Print Assumptions C02s_sigmoid_range.
-
-Theorem C02s_logsumexp_step_eq a b : fw_logsumexp_step a b = ln (exp a + exp b).
-Proof. exact (logsumexp_step_eq a b). Qed.
-Print Assumptions C02s_logsumexp_step_eq.
-
-(* the left fold of the pairwise update over a non-empty list is ln (sum_i e^{x_i}) *)
-Theorem C02s_logsumexp_pairwise_eq l : l <> [] -> lse_fold l = ln (sum_exp l).
-Proof. exact (logsumexp_pairwise_eq l). Qed.
+(* one pairwise update is ln (e^a + e^b); the left fold over a non-empty list is ln (sum_i e^{x_i}) *)
+Theorem C02s_logsumexp_pairwise_eq :
+  (forall a b, fw_logsumexp_step a b = ln (exp a + exp b)) /\
+  (forall l, l <> [] -> lse_fold l = ln (sum_exp l)).
+Proof. exact (conj logsumexp_step_eq logsumexp_pairwise_eq). Qed.
 Print Assumptions C02s_logsumexp_pairwise_eq.
 
-Theorem C02s_log_softmax_spec l : l <> [] -> log_softmax l = map (fun x => x - ln (sum_exp l)) l.
-Proof. exact (log_softmax_spec l). Qed.
-Print Assumptions C02s_log_softmax_spec.
-
-Theorem C02s_softmax_spec l : l <> [] -> softmax l = map (fun x => exp x / sum_exp l) l.
-Proof. exact (softmax_spec l). Qed.
-Print Assumptions C02s_softmax_spec.
-
-Theorem C02s_softmax_sums_to_one l : l <> [] -> sum_list (softmax l) = 1.
-Proof. exact (softmax_sums_to_one l). Qed.
-Print Assumptions C02s_softmax_sums_to_one.
-
-Theorem C02s_softmax_cross_entropy_spec l t : l <> [] ->
+(* composites of tensor_funcs.cc:311-323 at element level *)
+Theorem C02s_softmax_family_spec l t : l <> [] ->
+  log_softmax l = map (fun x => x - ln (sum_exp l)) l /\
+  softmax l = map (fun x => exp x / sum_exp l) l /\
+  sum_list (softmax l) = 1 /\
   softmax_cross_entropy l t = - sum_list (map (fun tx => fst tx * (snd tx - ln (sum_exp l))) (combine t l)).
-Proof. exact (softmax_cross_entropy_spec l t). Qed.
-Print Assumptions C02s_softmax_cross_entropy_spec.
+Proof. exact (softmax_family_spec_all l t). Qed.
+Print Assumptions C02s_softmax_family_spec.
 
 (* ---- why they cannot overflow: exp only ever sees arguments <= 0, intermediates are bounded ---- *)
 Theorem C02s_ast_denotes x y gy t a k :
   eval [x] ast_fw_softplus = fw_softplus x /\ eval [x] ast_fw_sigmoid = fw_sigmoid x /\
   eval [t; a] ast_fw_logsumexp_step = fw_logsumexp_step t a /\ eval [x; k] ast_fw_elu = fw_elu x k /\
   eval [x; y; gy] ast_bw_softplus = bw_softplus x y gy.
-Proof.
-  exact (conj (ast_fw_softplus_eval x) (conj (ast_fw_sigmoid_eval x) (conj (ast_fw_logsumexp_step_eval t a)
-        (conj (ast_fw_elu_eval x k) (ast_bw_softplus_eval x y gy))))).
-Qed.
+Proof. exact (ast_denotes_all x y gy t a k). Qed.
 Print Assumptions C02s_ast_denotes.
 
 Theorem C02s_softplus_intermediates_bounded x :
@@ -135,45 +92,37 @@ Theorem C02s_logsumexp_step_intermediates_bounded t a :
 Proof. exact (logsumexp_step_intermediates_bounded t a). Qed.
 Print Assumptions C02s_logsumexp_step_intermediates_bounded.
 
-(* whole reduction over l with |x_i| <= M: at the iteration that consumes a (after the non-empty
-   prefix p) the accumulator is lse_fold p; exp arguments are <= 0, every intermediate is
-   within 2M + ln n + 2 and the new accumulator within M + ln n *)
-Theorem C02s_logsumexp_intermediates_bounded M l p a q :
-  all_within M l -> l = p ++ a :: q -> p <> [] ->
-  exp_args_nonpos [lse_fold p; a] ast_fw_logsumexp_step /\
-  intermediates_within (2 * M + ln (INR (length l)) + 2) [lse_fold p; a] ast_fw_logsumexp_step /\
-  Rabs (fw_logsumexp_step (lse_fold p) a) <= M + ln (INR (length l)).
-Proof. exact (logsumexp_intermediates_bounded M l p a q). Qed.
+(* whole reduction over l with |x_i| <= M: the result is within [-M, M + ln n]; at the iteration
+   that consumes a (after the non-empty prefix p) the accumulator is lse_fold p, exp arguments
+   are <= 0, every intermediate is within 2M + ln n + 2 and the new accumulator within M + ln n *)
+Theorem C02s_logsumexp_intermediates_bounded M l : all_within M l ->
+  (l <> [] -> - M <= lse_fold l <= M + ln (INR (length l))) /\
+  (forall p a q, l = p ++ a :: q -> p <> [] ->
+     exp_args_nonpos [lse_fold p; a] ast_fw_logsumexp_step /\
+     intermediates_within (2 * M + ln (INR (length l)) + 2) [lse_fold p; a] ast_fw_logsumexp_step /\
+     Rabs (fw_logsumexp_step (lse_fold p) a) <= M + ln (INR (length l))).
+Proof. exact (logsumexp_bounded_all M l). Qed.
 Print Assumptions C02s_logsumexp_intermediates_bounded.
 
-Theorem C02s_logsumexp_result_bounded M l : l <> [] -> all_within M l ->
-  - M <= lse_fold l <= M + ln (INR (length l)).
-Proof. exact (lse_fold_bounded M l). Qed.
-Print Assumptions C02s_logsumexp_result_bounded.
-
-(* softmax = exp(log_softmax): its exp arguments are <= 0, so 0 < softmax_i <= 1 *)
-Theorem C02s_log_softmax_nonpos l : Forall (fun v => v <= 0) (log_softmax l).
-Proof. exact (log_softmax_nonpos l). Qed.
-Print Assumptions C02s_log_softmax_nonpos.
-
-Theorem C02s_softmax_range l : Forall (fun v => 0 < v <= 1) (softmax l).
-Proof. exact (softmax_range l). Qed.
-Print Assumptions C02s_softmax_range.
-
-Theorem C02s_log_softmax_bounded M l : all_within M l ->
-  Forall (fun v => Rabs v <= 2 * M + ln (INR (length l))) (log_softmax l).
-Proof. exact (log_softmax_bounded M l). Qed.
-Print Assumptions C02s_log_softmax_bounded.
+(* softmax = exp(log_softmax): its exp arguments are <= 0, so 0 < softmax_i <= 1;
+   |log_softmax_i| <= 2M + ln n *)
+Theorem C02s_softmax_family_bounded M l :
+  Forall (fun v => v <= 0) (log_softmax l) /\
+  Forall (fun v => 0 < v <= 1) (softmax l) /\
+  (all_within M l -> Forall (fun v => Rabs v <= 2 * M + ln (INR (length l))) (log_softmax l)).
+Proof. exact (softmax_family_bounded_all M l). Qed.
+Print Assumptions C02s_softmax_family_bounded.
 
 (* non-vacuity: a concrete non-empty bounded list with large entries; the fold has >= 2 steps *)
 Example C02s_nonvacuous :
   [10000; -10000; 80] <> [] /\ all_within 10000 [10000; -10000; 80] /\
   [10000; -10000; 80] = [10000] ++ (-10000) :: [80] /\ [10000] <> [] /\
   lse_fold [10000; -10000; 80] = fw_logsumexp_step (fw_logsumexp_step 10000 (-10000)) 80 /\
-  sum_list (softmax [10000; -10000; 80]) = 1.
+  sum_list (softmax [10000; -10000; 80]) = 1 /\ int32 (-2147483648).
 Proof.
   split; [discriminate|]. split.
   - repeat constructor; unfold Rabs; destruct (Rcase_abs _); lra.
-  - split; [reflexivity|]. split; [discriminate|]. split; [reflexivity|].
-    apply softmax_sums_to_one. discriminate.
+  - split; [reflexivity|]. split; [discriminate|]. split; [reflexivity|]. split.
+    + apply softmax_sums_to_one. discriminate.
+    + unfold int32. split; discriminate.
 Qed.
